@@ -378,6 +378,8 @@ def run(tier):
     K = 3
     c20.check_instr(cctx, lib, K)
     c20.check_string(cctx, lib, K, 4)
+    c20.check_instr(cctx, lib, K, alias=True)
+    c20.check_string(cctx, lib, K, 4, alias=True)
     c20.check_read_filter(cctx, lib)
     from vf.props import contracts
 
